@@ -5,6 +5,8 @@ package keeper
 import (
 	"context"
 
+	"cosmossdk.io/math"
+
 	addresscodec "cosmossdk.io/core/address"
 
 	"github.com/cosmos/cosmos-sdk/codec/address"
@@ -142,4 +144,62 @@ func VerifC14RemoveAndGov() {
 	_, registered := e.k.GetAllConsumerRewardDenoms(e.ctx), true
 	_ = registered
 	vh.Assert(e.k.ConsumerRewardDenomExists(e.ctx, "ibc/ABC") == (sender == 2), "C14.reward-denoms.changed-iff-authority")
+}
+
+// VerifC14ValidatorMsgs: MsgOptIn / MsgOptOut / MsgSetConsumerCommissionRate
+// name a validator (ProviderAddr) and a signer: stateless validation accepts
+// only the validator's own operator account as signer, and the handlers write
+// only cells of the named validator.
+func VerifC14ValidatorMsgs() {
+	cid := "1"
+	e := newVEnv(2)
+	e.k.SetParams(e.ctx, vParams(100, 600))
+	e.k.SetConsumerPhase(e.ctx, cid, types.CONSUMER_PHASE_LAUNCHED)
+	e.k.SetConsumerChainId(e.ctx, cid, "chainone")
+	vh.Assert(e.k.SetConsumerPowerShapingParameters(e.ctx, cid, types.PowerShapingParameters{}) == nil, "C14.val.setup")
+	f := vInstallConsumerFlags(e, cid, "", false)
+	named := vh.ConcretizeInt(vh.Int("named_validator"), 0, 1)
+	signerOf := vh.ConcretizeInt(vh.Int("signer"), 0, 2) // 0,1: operator account of validator i; 2: unrelated user
+	signer := vUser(0)
+	if signerOf < 2 {
+		signer = sdk.AccAddress(vOperator(signerOf)).String()
+	}
+	provAddr := vOperator(named).String()
+	srv := msgServer{Keeper: &e.k}
+	other := 1 - named
+	pOther := types.NewProviderConsAddress(vConsAddr(other))
+	_, hadRate := e.k.GetConsumerCommissionRate(e.ctx, cid, pOther)
+	switch vh.Bound("msg", 0) {
+	case 0:
+		m := &types.MsgOptIn{ConsumerId: cid, ProviderAddr: provAddr, Signer: signer}
+		verr := m.ValidateBasic()
+		vh.Assert((verr == nil) == (signerOf == named), "C14.val.optin-accepted-only-from-the-validators-operator")
+		if verr == nil {
+			_, herr := srv.OptIn(e.ctx, m)
+			vh.Assert(herr == nil, "C14.val.optin-succeeds")
+			vh.Assert(e.k.IsOptedIn(e.ctx, cid, types.NewProviderConsAddress(vConsAddr(named))), "C14.val.optin-opts-in-the-named-validator")
+		}
+	case 1:
+		m := &types.MsgOptOut{ConsumerId: cid, ProviderAddr: provAddr, Signer: signer}
+		verr := m.ValidateBasic()
+		vh.Assert((verr == nil) == (signerOf == named), "C14.val.optout-accepted-only-from-the-validators-operator")
+		if verr == nil {
+			_, _ = srv.OptOut(e.ctx, m)
+		}
+	default:
+		rate := math.LegacyNewDecWithPrec(3, 1)
+		m := &types.MsgSetConsumerCommissionRate{ConsumerId: cid, ProviderAddr: provAddr, Signer: signer, Rate: rate}
+		verr := m.ValidateBasic()
+		vh.Assert((verr == nil) == (signerOf == named), "C14.val.commission-accepted-only-from-the-validators-operator")
+		if verr == nil {
+			_, herr := srv.SetConsumerCommissionRate(e.ctx, m)
+			vh.Assert(herr == nil, "C14.val.commission-succeeds")
+			got, found := e.k.GetConsumerCommissionRate(e.ctx, cid, types.NewProviderConsAddress(vConsAddr(named)))
+			vh.Assert(found && got.Equal(rate), "C14.val.commission-set-for-the-named-validator")
+		}
+	}
+	vh.Reach("after-msg")
+	vh.Assert(e.k.IsOptedIn(e.ctx, cid, pOther) == f.opted[other], "C14.val.other-validators-optin-untouched")
+	_, hasRate := e.k.GetConsumerCommissionRate(e.ctx, cid, pOther)
+	vh.Assert(hasRate == hadRate, "C14.val.other-validators-commission-untouched")
 }
